@@ -93,53 +93,66 @@ Theorem C06_fuel_enough : forall c g o,
 Proof. exact accessible_fuel_enough. Qed.
 Print Assumptions C06_fuel_enough.
 
-(* ---- scopes nested in a module (module procedures, internal procedures, interface bodies) with USE
-   statements of their own.  [nested_imports_model c g o M S]: the entries the USE statements of the
-   nested scope S add to its dictionaries, S being correlated inside M.correlate, i.e. when exactly
-   the modules before M in the order o have merged their imports; the order is constrained by
-   [deps], the model of get_deps (USE statements of routines and of non-generic interface bodies,
-   recursively).  [nested_imports c g M S]: the Spec's set for the same statements. *)
+(* ---- scopes nested in a module (module procedures, internal procedures, interface bodies of every
+   kind) with USE statements of their own.  [nested_imports_model c g o M S]: the entries the USE
+   statements of the nested scope S add to its dictionaries, S being correlated inside
+   M.correlate, i.e. when exactly the modules before M in the order o have merged their imports;
+   the order is constrained by [deps], the model of get_deps (USE statements of routines and of
+   the procedure bodies of all interface blocks, recursively).  [nested_imports c g M S]: the
+   Spec's set for the same statements. *)
 Definition C06_nested_statement : Prop :=
   forall g o, wf_graph g = true -> topo_b g o = true ->
   forall c M S, In M g -> In S (m_nested M) ->
   denotes (nested_imports_model c g o M S) (nested_imports c g M S).
 
-(* Partial: outside the regions 1-4 and for scopes that get_deps reaches (no abstract-interface or
-   generic-interface body on the path), at any nesting depth, for any topological order. *)
+(* Partial: outside the regions 1-4 (the recorded defects of USE-statement processing, which are
+   the same wherever the statement stands); every nested scope, at any nesting depth, any kind
+   (also the bodies of abstract and generic interface blocks, since the repair of
+   find_used_modules / get_deps), for any topological order. *)
 Theorem C06_nested_partial : forall c g o,
   wf_graph g = true -> no_region g = true -> topo_b g o = true ->
-  forall M S, In M g -> In S (m_nested M) -> counted S = true ->
+  forall M S, In M g -> In S (m_nested M) ->
   denotes (nested_imports_model c g o M S) (nested_imports c g M S).
 Proof. exact nested_correct. Qed.
 Print Assumptions C06_nested_partial.
 
-(* Witnesses (region 5, no other region, the order is the one toposort gives): a USE statement in
-   an abstract interface body is ignored; one in a body inside a generic interface block is not a
-   dependency, so the names the used module re-exports are missing. *)
-Theorem C06_nested_refuted_absbody : nested_refuted_in w_absbody.
-Proof. exact refuted_absbody. Qed.
-Print Assumptions C06_nested_refuted_absbody.
-
-Theorem C06_nested_refuted_genbody : nested_refuted_in w_genbody.
-Proof. exact refuted_genbody. Qed.
-Print Assumptions C06_nested_refuted_genbody.
+(* Witness that the region hypothesis is needed here too: `use za, tb => ta` in a module procedure. *)
+Theorem C06_nested_refuted_rename : nested_refuted_in w_nested_rename.
+Proof. exact refuted_nested_rename. Qed.
+Print Assumptions C06_nested_refuted_rename.
 
 Theorem C06_nested_statement_refuted : ~ C06_nested_statement.
 Proof.
-  intros H. destruct refuted_absbody as (o & c & M & S & Hwf & Ht & _ & HM & HS & _ & _ & N).
+  intros H. destruct refuted_nested_rename as (o & c & M & S & Hwf & Ht & _ & HM & HS & _ & N).
   exact (N (H _ o Hwf Ht c M S HM HS)).
 Qed.
 Print Assumptions C06_nested_statement_refuted.
 
+(* The witnesses of the two repaired defects (USE in an abstract interface body ignored; USE in a
+   body inside a generic interface block not a dependency) now get the used module's entities. *)
+Theorem C06_nested_fixed_absbody :
+  wf_graph w_absbody = true /\ no_region w_absbody = true /\ toposort w_absbody = Some [s "za"; s "mm"] /\
+  assoc_get (s "ta") (nested_imports_model CType w_absbody [s "za"; s "mm"] (nth 0 w_absbody w_za)
+                        (mkS ["cb"%string] [NAbsBody] [] [mkU "za" None []])) = Some (s "za", s "ta").
+Proof. exact fixed_absbody. Qed.
+Print Assumptions C06_nested_fixed_absbody.
+
+Theorem C06_nested_fixed_genbody :
+  wf_graph w_genbody = true /\ no_region w_genbody = true /\
+  toposort w_genbody = Some [s "za"; s "zf"; s "mm"] /\
+  assoc_get (s "ta") (nested_imports_model CType w_genbody [s "za"; s "zf"; s "mm"] (nth 0 w_genbody w_za)
+                        (mkS ["ext"%string] [NGenBody] [] [mkU "zf" None []])) = Some (s "za", s "ta").
+Proof. exact fixed_genbody. Qed.
+Print Assumptions C06_nested_fixed_genbody.
+
 (* non-vacuity for the nested theorem: module "me" whose only USE statements sit in a module
-   procedure, in an internal procedure and in an interface body of that procedure; its
-   dependencies exist only through get_deps' recursion *)
+   procedure, in an internal procedure, in an interface body and in an abstract interface body of
+   that procedure; its dependencies exist only through get_deps' recursion *)
 Theorem C06_nested_example : 
   wf_graph ex_gn = true /\ no_region ex_gn = true /\ topo_b ex_gn ex_on = true /\
   toposort ex_gn = Some ex_on /\
-  forallb (fun M => forallb counted (m_nested M)) ex_gn = true /\
-  deps ex_gn (nth 4 ex_gn w_ma) = [s "md"; s "mc"; s "mb"].
-Proof. destruct ex_nested_hypotheses as (H1 & H2 & H3 & H4 & H5 & H6 & _). repeat split; assumption. Qed.
+  deps ex_gn (nth 4 ex_gn w_ma) = [s "md"; s "mc"; s "mb"; s "ma"].
+Proof. destruct ex_nested_hypotheses as (H1 & H2 & H3 & H4 & H5 & _). repeat split; assumption. Qed.
 Print Assumptions C06_nested_example.
 
 (* non-vacuity: a diamond of re-export with ONLY, renames, a default-private module with an
